@@ -218,6 +218,8 @@ def judge_dec(ctx, c, out, variant):
         esz, cnt = 1, len(text)
     if out in ("CRASH", "TIMEOUT"):
         return ("%s:%s" % (out.lower(), c["tag"]), "sc_io_decode (%s build): %s" % (variant, "sanitizer report or abnormal termination" if out == "CRASH" else "no termination within the time limit"))
+    if out == "OUT-OF-MEMORY":
+        return None
     for flag in ("POSITIVE-RC", "VIEW-DAMAGED", "INPUT-MODIFIED"):
         if flag in out:
             return ("%s:%s" % (flag.lower(), c["tag"]), "sc_io_decode (%s build): %s" % (variant, flag))
@@ -241,10 +243,15 @@ def judge_dec(ctx, c, out, variant):
     if not owner and size > cnt * esz:
         return ("view-grown:%s" % c["tag"], "decode delivered %d bytes into a view of %d bytes" % (size, cnt * esz))
     nat = cc.py_natural_decode(text)
-    if nat is not None and nat[2] is not None and nat[2] != data:
-        return ("wrong-bytes:%s" % c["tag"], "decode returned bytes that differ from what Python's base64+zlib reader gets from the same text")
-    if nat is not None and nat[2] is None and variant == "z":
-        return ("accept-bad-stream:%s" % c["tag"], "the zlib build accepted a stream that Python's zlib reader rejects for the declared size")
+    if nat is not None:
+        pb, status = nat[2], nat[3]
+        if status == "ok" and size > 0 and pb != data:
+            return ("wrong-bytes:%s" % c["tag"], "decode returned %d bytes that differ from the %d bytes Python's base64+zlib reader gets from the same text" % (len(data), len(pb)))
+        if status == "ok" and size == 0 and len(pb) > 1:
+            # (zlib's uncompress with a zero-length destination tolerates a stream of one byte: not judged)
+            return ("accept-oversized:%s" % c["tag"], "decode accepted a stream of %d bytes for a declared size 0" % len(pb))
+        if status != "ok" and variant == "z":
+            return ("accept-bad-stream:%s" % c["tag"], "the zlib build accepted a stream that Python's zlib reader finds %s" % status)
     return None
 
 
@@ -388,6 +395,11 @@ def run(ctx):
         huge = (hdr is not None and hdr[0] > BIG and c["kind"][1] == 1 and (c["maxsz"] == 0 or c["maxsz"] >= BIG))
         for v in ("z", "nz"):
             o = outs[v][i] or "<missing>"
+            if o == "CRASH" and hdr is not None and (1 << 28) <= hdr[0] <= BIG and c["kind"][1] == 1 and (c["maxsz"] == 0 or c["maxsz"] >= hdr[0]) \
+                    and ("failed to allocate" in incident_text[v].get(i, "") or "Allocation" in incident_text[v].get(i, "")):
+                # the allocation of the declared size failed and libsc aborted: the documented exception ("cannot crash unless out of memory")
+                o = outs[v][i] = "OUT-OF-MEMORY"
+                stats["out_of_memory"] = stats.get("out_of_memory", 0) + 1
             stats[("ok_" if o.startswith("ok") else "err_") + v] += 1
             j = judge_dec(ctx, c, o, v)
             if j:
@@ -407,7 +419,7 @@ def run(ctx):
         # tie: the build without zlib is the modelled code path, line by line
         on = outs["nz"][i] or "<missing>"
         canon = lambda s: "err" if s.startswith("err") else s
-        if on not in ("CRASH", "TIMEOUT") and canon(on) != canon(mo):
+        if on not in ("CRASH", "TIMEOUT", "OUT-OF-MEMORY") and canon(on) != canon(mo):
             ndis += 1
             if ndis <= 3:
                 ctx.tie_broken("sc_io_decode vs model (build without zlib)", "case %s: libsc %s, model %s" % (c["line"][:160], on[:120], mo[:120]))
